@@ -3,7 +3,7 @@ from ..engine import Leg, Prop
 from .. import structh as H
 
 W_ALL = {"NV": 3, "NU": 1.5, "NE": 4, "SV1": 4, "SV2": 4, "A2L": 2, "RFL": 2, "LAV": 2, "LUF": 2, "LFT": 4, "UNL": 4,
-         "UAV": 1.5, "URV": 1, "VAU": 1, "VRU": 1, "CACHE": 0.3}
+         "UAV": 1.5, "URV": 1, "VAU": 1, "VRU": 1, "CACHE": 0.3, "CLONE": 1.0}
 
 
 def other_end(lverts, l, a):
@@ -125,6 +125,9 @@ class ApiHistory(Leg):
     def oracle(self, case, obs):
         if obs is None:
             return []
+        m = H.clone_violations(case["ops"], obs)
+        if m:
+            return m
         prev = {"kind": [], "vlinks": [], "lverts": [], "vunis": [], "uverts": [], "ulaws": [], "lapp": [], "rules": []}
         for i, (op, r) in enumerate(zip(case["ops"], obs)):
             cur = r["snap"]
